@@ -58,13 +58,15 @@ Failed ==
     F("conf_outcome", CU.st = MU.st) \cup
     F("conf_values", (CU.st = "done" /\ MU.st = "done") => CU.result = MU.result) \cup
     F("conf_end", (CU.st = "done" /\ MU.st = "done") => CU.endc = MU.endc) \cup
-    F("conf_err", (CU.st = "fail" /\ MU.st = "fail" /\ T.generic) => CU.err = MU.err) \cup
+    F("conf_err", (CU.st = "fail" /\ MU.st = "fail") =>
+                     CU.err = (IF T.generic THEN MU.err ELSE GenErr(DP, MU.err, T.vec, m.hookname # ""))) \cup
     F("conf_err_depth", (CU.st = "fail" /\ MU.st = "fail") => Len(CU.err) = Len(MU.err)) \cup
     F("conf_reads", (T.generic /\ CU.st = MU.st) => StripReads(CU.reads) = StripReads(MU.reads)) \cup
     F("conf_evs", (T.generic /\ CU.st = "done" /\ MU.st = "done") => CU.evs = MU.evs) \cup
     F("conf_pack_outcome", phase = "pack" => CP.st = MP.st) \cup
     F("conf_out", (phase = "pack" /\ CP.st = "done" /\ MP.st = "done") => CP.out = MP.out) \cup
-    F("conf_perr", (phase = "pack" /\ CP.st = "fail" /\ MP.st = "fail" /\ T.genericp) => CP.err = MP.err) \cup
+    F("conf_perr", (phase = "pack" /\ CP.st = "fail" /\ MP.st = "fail") =>
+                      CP.err = (IF T.genericp THEN MP.err ELSE GenErr(DP, MP.err, T.vec, phase = "pack" /\ p.hookname # ""))) \cup
     F("conf_writes", (phase = "pack" /\ T.genericp /\ CP.st = MP.st) => CP.writes = MP.writes) \cup
     F("conf_pevs", (phase = "pack" /\ T.genericp /\ CP.st = "done" /\ MP.st = "done") => CP.evs = MP.evs) \cup
     \* ---- the properties, on the recorded observations
